@@ -64,13 +64,20 @@ func genC20(rng *rand.Rand, n int, emit func(Case), dist map[string]int) {
 		e := echo.New()
 		out := &rOutcome{}
 		names := make([]string, len(rs))
+		var firstHandler echo.HandlerFunc
 		for i, r := range rs {
 			id := i
-			rt := e.Add(r.method, r.pattern, func(c echo.Context) error {
+			hf := func(c echo.Context) error {
 				*out = rOutcome{status: 200, id: id, names: append([]string(nil), c.ParamNames()...), vals: append([]string(nil), c.ParamValues()...), path: c.Path()}
 				return c.NoContent(http.StatusOK)
-			})
-			rt.Name = fmt.Sprintf("route-%d", i)
+			}
+			if i == 0 {
+				firstHandler = hf
+			}
+			rt := e.Add(r.method, r.pattern, hf)
+			if len(rs) > 1 {
+				rt.Name = fmt.Sprintf("route-%d", i) // (a single route keeps its default name, the handler's: Echo.URI finds it by that)
+			}
 			names[i] = rt.Name
 		}
 		ti := rng.Intn(len(rs))
@@ -107,6 +114,14 @@ func genC20(rng *rand.Rand, n int, emit func(Case), dist map[string]int) {
 			args = append(args, v)
 		}
 		rev := e.Reverse(names[ti], args...)
+		viaHandler, viaHandlerSet := "", false
+		if len(rs) == 1 {
+			// the other entry point: look the route up by its handler (Echo.URI / Echo.URL)
+			viaHandler, viaHandlerSet = e.URI(firstHandler, args...), true
+			if rng.Intn(2) == 0 {
+				viaHandler = e.URL(firstHandler, args...)
+			}
+		}
 		req := httptest.NewRequest(target.method, "/", nil)
 		req.URL = &url.URL{Path: rev}
 		rec := httptest.NewRecorder()
@@ -129,6 +144,8 @@ func genC20(rng *rand.Rand, n int, emit func(Case), dist map[string]int) {
 		want, cnt, _ := rSubst(target.pattern, vs)
 		if !cnt || rev != want {
 			ok, why = false, fmt.Sprintf("Reverse(%q, %q) = %q, the pattern instance is %q", target.pattern, vs, rev, want)
+		} else if viaHandlerSet && viaHandler != want {
+			ok, why = false, fmt.Sprintf("URI(handler of %q, %q) = %q, the pattern instance is %q", target.pattern, vs, viaHandler, want)
 		}
 		others := false
 		for i, r := range rs {
